@@ -29,6 +29,13 @@ STAGES = {
     "C03": [S("e_tbb", "asu", 9000, 300000), S("e_tbb", "tsan", 4000, 120000, gate=False)],
     "C20": [S("e_tbb", "asu", 4000, 60000)],
     "C04": [S("e_mpi", "asu", 8000, 250000)],
+    "C10": [S("e_comp", "asu", 20000, 600000)],
+    "C12": [S("e_comp", "asu", 8000, 200000)],
+    "C13": [S("e_comp", "asu", 20000, 600000)],
+    "C14": [S("e_comp", "asu", 6000, 150000)],
+    "C16": [S("e_comp", "asu", 15000, 400000)],
+    "C17": [S("e_comp", "asu", 20000, 600000)],
+    "C18": [S("e_comp", "asu", 20000, 600000)],
     "C08": [S("e_mpi", "asu", 3000, 60000), S("e_mpi", "plain", 0, 400, tier_arg="big", gate=False)],
 }
 
